@@ -1,9 +1,105 @@
 import NibabelModel.Model.C08
 import Driver.Util
-/-! Line-protocol driver for C08: `C08 <op> <args...>` -> one observable line. -/
+/-! Line-protocol driver for C08: `C08 <op> <args...>` -> `<outcome> <plain length>`.
+
+    outcome: `X` the model reader raises, `E` it returns exactly the written data, `D` it returns
+    something else (possible only for the pre-fix TRK reader / header count 0).
+
+    ops
+    * `vol <hdrSize> <sniffLen> <exts 0|1> <fixedOff _|n> <footerSize> <member single|hdr|img>
+           <extender0> <payload lens a,b|-> <padLen> <dataLen> <footerLen> <mmap 0|1> <comp 0|1>
+           <k> <m> <strict 0|1>`
+    * `trk <nsc> <npr> <npts a,b|-> <count _|n> <orig 0|1> <k> <m> <strict>`
+    * `tck <hex header lines a,b|-> <npts a,b|-> <k> <m> <strict>`
+    * `xml <plainLen> <rootEnd> <k> <m> <strict>`
+    `k` = bytes on disk (0 ⇒ `load` refuses), `m`/`strict` = what the opened file delivers. -/
 namespace Nb.Drv.C08
+open Nb Nb.C08
+
+def parseBool? (s : String) : Option Bool :=
+  if s = "0" then some false else if s = "1" then some true else none
+
+def parseOptNat? (s : String) : Option (Option Nat) :=
+  if s = "_" then some none else s.toNat?.map some
+
+def hexVal? (c : Char) : Option Nat :=
+  if '0' ≤ c ∧ c ≤ '9' then some (c.toNat - 48)
+  else if 'a' ≤ c ∧ c ≤ 'f' then some (c.toNat - 87) else none
+
+def parseHex? : List Char → Option Bytes
+  | [] => some []
+  | [_] => none
+  | a :: b :: r => do
+    let x ← hexVal? a
+    let y ← hexVal? b
+    let t ← parseHex? r
+    pure ((16 * x + y) :: t)
+
+def parseHexList? (s : String) : Option (List Bytes) :=
+  if s = "-" then some [] else (s.splitOn ",").mapM (fun t => parseHex? t.toList)
+
+/-- deterministic synthetic content -/
+def synth (seed n : Nat) : Bytes := (List.range n).map (fun i => (i * 7 + seed * 13 + 3) % 251)
+
+/-- finite float32 triple: exponent bytes kept away from 255 -/
+def synthTriple (seed : Nat) : Bytes :=
+  (List.range 3).flatMap (fun c => [(seed * 5 + c) % 256, (seed * 11 + c * 3) % 256, (seed + c) % 128, 64 + (seed + c) % 3])
+
+def outcome {α : Type} [DecidableEq α] (r : Except Err α) (want : α) : String :=
+  match r with
+  | .error _ => "X"
+  | .ok v => if v = want then "E" else "D"
 
 def handle : List String → String
+  | ["vol", hs, sl, ex, fo, ft, member, e0, pl, padn, dn, fn, mm, cp, k, m, st] =>
+      match hs.toNat?, sl.toNat?, parseBool? ex, parseOptNat? fo, ft.toNat?, e0.toNat?, parseNatList? pl,
+            padn.toNat?, dn.toNat?, fn.toNat?, parseBool? mm, parseBool? cp, k.toNat?, m.toNat?, parseBool? st with
+      | some hs, some sl, some ex, some fo, some ft, some e0, some pl, some padn, some dn, some fn, some mm,
+        some cp, some k, some m, some st =>
+          if hs < 16 then "bad-op" else
+          let fmt : VolFmt := ⟨hs, sl, ex, fo, ft⟩
+          let img : Img := { fill := synth 1 (hs - 16), extender := [e0, 0, 0, 0],
+                             exts := pl.zipIdx.map (fun (n, i) => (6, synth (i + 2) n)),
+                             pad := List.replicate padn 0, data := synth 5 dn, footer := synth 9 fn }
+          let um := effMmap mm cp
+          if member = "single" then
+            let file := writeSingle fmt img
+            outcome (load k (readSingle fmt um ⟨file.take m, st⟩)) img.data ++ " " ++ toString file.length
+          else if member = "hdr" then
+            let file := writeHdrFile fmt img
+            outcome (load k (readPair fmt um ⟨file.take m, st⟩ (Src.plain (writeImgFile img)))) img.data
+              ++ " " ++ toString file.length
+          else if member = "img" then
+            let file := writeImgFile img
+            outcome (load k (readPair fmt um (Src.plain (writeHdrFile fmt img)) ⟨file.take m, st⟩)) img.data
+              ++ " " ++ toString file.length
+          else "bad-op"
+      | _, _, _, _, _, _, _, _, _, _, _, _, _, _, _ => "bad-op"
+  | ["trk", nsc, npr, npts, cnt, orig, _k, m, st] =>
+      match nsc.toNat?, npr.toNat?, parseNatList? npts, parseOptNat? cnt, parseBool? orig, m.toNat?, parseBool? st with
+      | some nsc, some npr, some npts, some cnt, some orig, some m, some st =>
+          let recs : List TrkRec := npts.zipIdx.map (fun (n, i) =>
+            { npts := n, pts := synth (i + 1) (n * (3 + nsc) * 4), props := synth (i + 40) (npr * 4) })
+          let t : Trk := { nsc := nsc, npr := npr, fillA := synth 2 36, fillB := synth 3 200,
+                           fillC := synth 4 748, recs := recs }
+          let file := trkHeader t (cnt.getD recs.length) ++ trkBody recs
+          outcome (trkReadGen (!orig) ⟨file.take m, st⟩) (trkData t) ++ " " ++ toString file.length
+      | _, _, _, _, _, _, _ => "bad-op"
+  | ["tck", lines, npts, _k, m, st] =>
+      match parseHexList? lines, parseNatList? npts, m.toNat?, parseBool? st with
+      | some lines, some npts, some m, some st =>
+          let streams : List (List Bytes) := npts.zipIdx.map (fun (n, i) =>
+            (List.range n).map (fun j => synthTriple (i * 17 + j)))
+          let t : Tck := { lines := lines, streams := streams }
+          let file := tckWrite t
+          outcome (tckRead ⟨file.take m, st⟩) (streams.filter (· ≠ [])) ++ " " ++ toString file.length
+      | _, _, _, _ => "bad-op"
+  | ["xml", plen, rootEnd, k, m, st] =>
+      match plen.toNat?, rootEnd.toNat?, k.toNat?, m.toNat?, parseBool? st with
+      | some plen, some rootEnd, some k, some m, some st =>
+          let file := synth 7 plen
+          outcome (load k (xmlRead rootEnd ⟨file.take m, st⟩)) (file.take rootEnd) ++ " " ++ toString file.length
+      | _, _, _, _, _ => "bad-op"
   | _ => "bad-op"
 
 end Nb.Drv.C08
